@@ -131,6 +131,55 @@ func (u *Universe) nearID(kind string, max int) uint64 {
 	return id
 }
 
+// located draws an object id of the kind ("shard", "index") together with the (database,
+// policy) it lives in — half of the time, when the catalogue has one — so that the commands
+// that look an object up inside a named policy reach the comparison; 20 % of those ids are
+// then moved to a neighbour (below the first / next to an existing one).
+func (u *Universe) located(kind string, max int) (string, string, uint64) {
+	if u.State != nil && u.R.Chance(50) {
+		d := u.State()
+		type loc struct {
+			db, rp string
+			id     uint64
+		}
+		var all []loc
+		for _, dbk := range sortedKeys(d.Databases) {
+			for _, rk := range sortedKeys(d.Databases[dbk].RetentionPolicies) {
+				rp := d.Databases[dbk].RetentionPolicies[rk]
+				if kind == "shard" {
+					for i := range rp.ShardGroups {
+						for _, sh := range rp.ShardGroups[i].Shards {
+							all = append(all, loc{dbk, rk, sh.ID})
+						}
+					}
+				} else {
+					for i := range rp.IndexGroups {
+						for _, ix := range rp.IndexGroups[i].Indexes {
+							all = append(all, loc{dbk, rk, ix.ID})
+						}
+					}
+				}
+			}
+		}
+		if len(all) > 0 {
+			l := all[u.R.Intn(len(all))]
+			if u.R.Chance(20) && l.id > 0 {
+				switch u.R.Intn(3) {
+				case 0:
+					l.id = 0
+				case 1:
+					l.id--
+				default:
+					l.id++
+				}
+			}
+			return l.db, l.rp, l.id
+		}
+	}
+	db, rp := u.dbRp()
+	return db, rp, u.nearID(kind, max)
+}
+
 // nameOf draws the name of an object of the given kind ("stream", "cq", "sub"): 60 % of the time
 // one that exists in the current catalogue, otherwise from the fixed list.
 func (u *Universe) nameOf(kind string, fixed []string) string {
@@ -658,8 +707,7 @@ func init() {
 		return Cmd{PB: mk(T("CreateDbPtViewCommand"), proto2.E_CreateDbPtViewCommand_Command, v), Text: "CreateDbPtView " + tok(db)}
 	})
 	reg("UpdateShardInfoTier", T("UpdateShardInfoTierCommand"), 2, func(u *Universe) Cmd {
-		db, rp := u.dbRp()
-		id := u.nearID("shard", 16)
+		db, rp, id := u.located("shard", 16)
 		tier := uint64(1 + u.R.Intn(3))
 		v := &proto2.UpdateShardInfoTierCommand{ShardID: pu64(id), Tier: pu64(tier), DbName: ps(db), RpName: ps(rp)}
 		return Cmd{PB: mk(T("UpdateShardInfoTierCommand"), proto2.E_UpdateShardInfoTierCommand_Command, v), Text: fmt.Sprintf("UpdateShardInfoTier %d %d %s %s", id, tier, tok(db), tok(rp))}
@@ -895,8 +943,7 @@ func init() {
 		return &proto2.InsertFilesCommand{FileInfos: []*proto2.FileInfo{{Sequence: pu64(1), MstID: pu64(1), ShardID: pu64(1)}}}, ""
 	})
 	un("UpdateIndexInfoTier", "UpdateIndexInfoTierCommand", 2, proto2.E_UpdateIndexInfoTierCommand_Command, func(u *Universe) (interface{}, string) {
-		db, rp := u.dbRp()
-		id := u.nearID("index", 12)
+		db, rp, id := u.located("index", 12)
 		tier := uint64(1 + u.R.Intn(3))
 		return &proto2.UpdateIndexInfoTierCommand{IndexID: pu64(id), Tier: pu64(tier), DbName: ps(db), RpName: ps(rp)}, fmt.Sprint(id, " ", tier, " ", db, " ", rp)
 	})
